@@ -163,12 +163,23 @@ def scalar_harness(k, mutual, alias, partners):
             pop_exception_handler()
 
     def body(ex, errors):
+        static = {}
+
         class A(HasTraits):
             x = Int(1)
+
+            def _x_changed(self):
+                static[id(self)] = static.get(id(self), 0) + 1
 
         class B(HasTraits):
             x = Int(2)
             y = Int(3)
+
+            def _x_changed(self):
+                static[id(self)] = static.get(id(self), 0) + 1
+
+            def _y_changed(self):
+                static[id(self)] = static.get(id(self), 0) + 1
 
         a = A()
         bs = [B() for _ in range(partners)]
@@ -190,9 +201,10 @@ def scalar_harness(k, mutual, alias, partners):
         trace = []
         val = 10
         for step in range(k):
-            op = ex.choice("op%d" % step, 10)
+            op = ex.choice("op%d" % step, 11)
             who = ex.choice("who%d" % step, partners)
             val += 1
+            static.clear()
             calls["a"] = 0
             for i in range(partners):
                 bcalls[i] = 0
@@ -252,11 +264,30 @@ def scalar_harness(k, mutual, alias, partners):
                 trace.append("quiet-rejected%d" % op)
                 ex.check(rejected and a.x == ax and [getattr(b, bname) if alive[i] else None for i, b in enumerate(bs)] == snapshot,
                          "a rejected quiet update changes nothing")
+            elif op == 10:
+                # a handler of the partner raises for ONE change (the failure goes to the exception handler): the link works on
+                if not alive[who] or not fwd[who]:
+                    continue
+                fired = []
+
+                def boom():
+                    if not fired:
+                        fired.append(1)
+                        raise RuntimeError("handler failed")
+                bs[who].on_trait_change(boom, bname)
+                a.x = val
+                trace.append("boom%d" % who)
+                ex.check(getattr(bs[who], bname) == val, "a failing handler of the partner does not undo the propagated value")
+                del errors[:]
             elif op == 3:
                 if not alive[who]:
                     continue
+                import weakref as _wr
+                wr_ = _wr.ref(bs[who])
+                b = None                       # (the loop variable of the checks above still names a partner)
                 bs[who] = None
                 gc.collect()
+                ex.check(wr_() is None, "a partner the application dropped is collected (whatever its handlers did before)")
                 alive[who] = False
                 fwd[who] = back[who] = False
                 trace.append("gc%d" % who)
@@ -265,9 +296,110 @@ def scalar_harness(k, mutual, alias, partners):
                 trace.append("same")
                 ex.check(calls["a"] == 0 and all(c == 0 for c in bcalls), "re-assigning the same value notifies nobody")
             ex.check(calls["a"] <= 1 and all(c <= 1 for c in bcalls), "each side's handlers are notified at most once per change")
+            ex.check(all(c <= 1 for c in static.values()), "each side's statically named handlers are notified at most once per change")
             ex.check(errors == [], "no step raises into the notification exception handler")
         return {"trace": trace}
 
+    return harness
+
+
+def triangle_harness(k, reraise_fixed=None, first_op=None):
+    """three objects synchronised pairwise (every pair mutually) on a List and on an Int trait: one assignment or in-place change on
+    any of them makes all three equal, terminates, and calls every side's handlers - the statically named methods included - at
+    most once, and exactly once when that side's value really changed; a failing handler of one side (exceptions re-raised into
+    the compiled notification loop) changes none of that, and a side that is dropped afterwards is collected"""
+    import weakref
+
+    def harness(ex):
+        errors = []
+        reraise = ex.flag("handler_exceptions_are_reraised") if reraise_fixed is None else reraise_fixed
+        push_exception_handler(lambda *a: errors.append(a) or None, reraise_exceptions=reraise)
+        try:
+            counts = {}
+
+            def bump(key):
+                counts[key] = counts.get(key, 0) + 1
+
+            class Node(HasTraits):
+                name = Str()
+                l = List(Int)
+                x = Int(0)
+
+                def _l_changed(self):
+                    bump((self.name, "static l"))
+
+                def _x_changed(self):
+                    bump((self.name, "static x"))
+
+            nodes = [Node(name=n_) for n_ in "abc"]
+            for i in range(3):
+                for j in range(i + 1, 3):
+                    nodes[i].sync_trait("l", nodes[j])
+                    nodes[i].sync_trait("x", nodes[j])
+            for n_ in nodes:
+                n_.on_trait_change(lambda obj, name, old, new: bump((obj.name, "dynamic " + name)), "l, x")
+            val = 100
+            boom_armed = []
+            for step in range(k):
+                op = ex.choice("op%d" % step, 6) if not (step == 0 and first_op is not None) else first_op
+                who = nodes[ex.choice("who%d" % step, 3)]
+                val += 1
+                before = {n_.name: (list(n_.l), n_.x) for n_ in nodes}
+                counts.clear()
+                failed = None
+                try:
+                    if op == 0:
+                        who.l = [val, val + 1]
+                    elif op == 1:
+                        who.l = list(who.l)             # an equal list, a fresh object
+                    elif op == 2:
+                        who.l.append(val)
+                    elif op == 3:
+                        who.x = val
+                    elif op == 4:
+                        who.x = who.x
+                    else:
+                        # from now on ONE handler of this side raises once
+                        fired = []
+
+                        def boom():
+                            if not fired:
+                                fired.append(1)
+                                raise RuntimeError("handler failed")
+                        who.on_trait_change(boom, "x")
+                        continue
+                except RuntimeError:
+                    failed = True                       # (re-raised handler exceptions surface at the assignment that triggered them;
+                                                        # the exception object itself is not kept: its traceback pins the objects)
+                ex.check(failed is None or reraise, "a handler exception reaches the caller only when re-raising was asked for")
+                ex.check(all(list(n_.l) == list(nodes[0].l) and n_.x == nodes[0].x for n_ in nodes) or failed is not None,
+                         "after the operation all three sides are equal")
+                for n_ in nodes:
+                    for attr in ("l", "x"):
+                        changed = (list(n_.l), n_.x)[attr == "x"] != before[n_.name][attr == "x"]
+                        for kind in ("static", "dynamic"):
+                            got = counts.get((n_.name, "%s %s" % (kind, attr)), 0)
+                            if op == 2 and attr == "l":
+                                ex.check(got == 0, "an in-place change is no whole-value change")
+                            else:
+                                ex.check(got <= 1, "each side's handlers (statically named ones included) are notified at most once per change")
+                                if failed is None:
+                                    ex.check(got == (1 if changed else 0), "... and exactly once when that side's value changed")
+                del errors[:]
+            victim = nodes.pop(ex.choice("dropped", 3))
+            wr = weakref.ref(victim)
+            who = n_ = None
+            del victim
+            gc.collect()
+            ex.check(wr() is None, "a side the application dropped is collected, whatever its handlers did before")
+            try:
+                nodes[0].x = 5000
+            except RuntimeError:
+                pass                                    # (an armed handler going off, re-raised)
+            ex.check(nodes[1].x == 5000, "the remaining sides stay synchronised")
+            return {"k": k}
+        finally:
+            pop_exception_handler()
     return harness
 
 
@@ -427,6 +559,14 @@ def unlink_inside_handler_harness(ex):
 
 def obligations(tier, build):
     obs = []
+    for rr in (False, True):
+        for fo in range(6):
+            obs.append(Obligation("triangle/k=2/%s/first=%d" % ("reraise" if rr else "swallow", fo), triangle_harness(2, rr, fo),
+                                  bounds={"objects": "three, every pair synchronised mutually on a List and an Int trait",
+                                          "operations": ["assign a list", "assign an equal fresh list", "append in place",
+                                                         "assign an int", "re-assign the same int", "arm a failing handler"],
+                                          "handler exceptions": "re-raised" if rr else "swallowed", "first operation": fo},
+                                  leverage="choice feasibility only", max_paths=50000))
     obs.append(Obligation("unlink-inside-handler", unlink_inside_handler_harness,
                           bounds={"variants": ["scalar unlink", "list unlink", "list relink"], "list operations": 4, "mutual": "flag"},
                           leverage="choice feasibility only"))
